@@ -641,7 +641,7 @@ func emitDirLoad(r *vlib.R, u *universe, emit func(string)) int {
 		emit("bl restart " + mainText() + " " + stagingText(r, u))
 		return 1
 	}
-	emit("bl dirload " + stagingText(r, u))
+	emit("bl dirload " + mainText() + " " + stagingText(r, u))
 	return 1
 }
 
@@ -692,8 +692,8 @@ func gen(r *vlib.R, n int, tier string, emit func(string)) {
 	emit("bl held")
 	emit("bl cserve 1 " + encList([]string{"a.example.com.", "b.example.com.", "c.example.org.", "d.example.com."}))
 	emit("bl set " + enc("staged.example.net"))
-	emit("bl dirload " + enc(header+"\nexample.com.\nstaged.exam"))
-	emit("bl dirload _")
+	emit("bl dirload " + mainText() + " " + enc(header+"\nexample.com.\nstaged.exam"))
+	emit("bl dirload " + mainText() + " _")
 	emit("bl restart " + mainText() + " " + enc(header+"\nexample.com.\nstag"))
 	emit("bl restart " + mainText() + " " + enc(header+"\n"))
 	emit("bl restart " + mainText() + " _")
